@@ -5,6 +5,7 @@ mod c05;
 mod gen;
 mod peg;
 mod stack;
+mod sweep;
 mod util;
 
 /// Runs `f` on a thread with a 2 GB stack (deeply recursive grammars must not abort the harness).
@@ -25,6 +26,8 @@ fn main() {
     match sub {
         "c01-emit" => big_stack(move || c01::emit(&rest2)),
         "c05-emit" => big_stack(move || c05::emit(&rest2)),
+        "c12-emit" => big_stack(move || sweep::c12(&rest2)),
+        "c15-emit" => big_stack(move || sweep::c15(&rest2)),
         "c01-replay" => big_stack(move || c01::replay(&rest2)),
         "stack-replay" => stack::replay(rest),
         "stack-emit" => stack::emit(rest),
